@@ -89,6 +89,11 @@ def c04_case(case):
 
 # anonymous variables, local variables of joined aggregates and tuple variables where the traits build new rules/elements
 HAND = [
+    ("{opt(S,V)} :- o(S,V). best(M,X) :- M = #max{V : opt(S,V)}, S = #sum{W,X : item(X), weight(X,W)}, d(X).", "minmax_chains"),
+    ("{ sel(P,V) } :- skill(P,V). res(X,P) :- person(P), X = #max { V : sel(P,V) }. :~ res(X,P). [X@0,P]", "minmax_chains"),
+    ("{ shift(D,L) : pshift(D,L) } 1 :- day(D). a(__PREV) :- __PREV = #sum{L,D : shift(D,L)}.", "sum_chains"),
+    ("{ shift(D,L) : pshift(D,L) } 1 :- day(D). :~ shift(__PREV,L), q(__PREV). [L@1,__PREV]", "sum_chains"),
+    ("{skill(X,V)} :- d(X,V). best(__PREV,M) :- p(__PREV), M = #max{V : skill(__PREV,V)}.", "minmax_chains"),
     "{ shift(D,L) : pshift(D,L) } 1 :- day(D). a(X) :- X = #sum { L : shift(_,L) }.",
     "{ shift(D,L) : pshift(D,L) } 1 :- day(D). #minimize { L : shift(_,L) }.",
     "{ shift(D,L) : pshift(D,L) } 1 :- day(D). a(X) :- X = #sum { L,D : shift(D,L), ok(_) }.",
@@ -124,8 +129,13 @@ def run(ctx) -> int:
     texts += [gen.mutate(ctx.rng, ctx.rng.choice(H)[1]) for _ in range(50 if ctx.quick() else 2000)]
     for f in own.values():
         texts.append(f["witness"]["program"])
-    texts += HAND * 2
+    texts += [h for h in HAND if isinstance(h, str)] * 2
     cases = []
+    # hand-written programs made for one trait run under that trait alone and under the default traits
+    for h in HAND:
+        if not isinstance(h, str):
+            for fl in (semcheck.flags_only(h[1]), default):
+                cases.append((h[0], fl, ctx.seed * 104729 + 40000 + len(cases)))
     for k, t in enumerate(texts):
         fl = ctx.rng.choice([default, default, allf, semcheck.flags_only(ctx.rng.choice(semcheck.ALL_TRAITS)), semcheck.flags_only()])
         cases.append((t, fl, ctx.seed * 104729 + k))
